@@ -23,7 +23,10 @@ RULE = ("generated child sets (0..50 children, names from several scripts incl. 
         "nested JSON metadata) packed for a mutable and for an immutable directory, unpacked through write handle, read "
         "handle and immutable directory; plus structured malformed data (truncation, junk, duplicate / non-normalized / "
         "unsorted names, trailing spaces, stray rwcapdata) and direct create_from_cap calls; a case = one pack, unpack "
-        "or create call; non-trivial = at least one child / a non-empty cap")
+        "or create call; the listing (AuxValueDict with cached raw entries) of the unpacked directory is also packed for "
+        "ANOTHER directory with a different write key (pack_children, create_dirnode(initial_children=), "
+        "create_subdirectory(initial_children=)) and read back through that directory's write handle; "
+        "non-trivial = at least one child / a non-empty cap")
 TRUSTED = ["lean/Tahoe/Dir/Pack.lean is a hand transcription of the pack/unpack code, UnknownNode.__init__, "
            "uri.from_string's prefix/constraint logic and create_from_cap",
            "the cap classification table sent to the driver is computed with the real uri.from_string / to_string / get_readonly"]
@@ -286,6 +289,10 @@ class World:
         self.dnro = self.c.create_node_from_uri(self.dn.get_readonly_uri())
         self.imm = rt.wait(self.c.create_immutable_dirnode({}))
         self.key = self.dn._node.get_writekey()
+        self.dn2 = rt.wait(self.c.create_dirnode())           # another directory, another write key
+        self.key2 = self.dn2._node.get_writekey()
+        assert self.key2 != self.key
+        self.n_cross = 0
         assert self.dn.is_mutable() and not self.dn.is_readonly()
         assert self.dnro.is_mutable() and self.dnro.is_readonly()
         assert not self.imm.is_mutable() and self.imm.is_readonly()
@@ -446,6 +453,59 @@ def one_case(ctx, w, case, lines, impls, cases):
                 st3, again3 = call(lambda: pack_children({k: v for k, v in res.items()}, w.key, False))
                 if st3 != "ok" or again3 != packed_m:
                     ctx.violation("pack(unpack(pack c)) differs from pack c (re-encoded entries)", case, "repack-differs")
+        # ---- a real listing of this directory (an AuxValueDict that caches every raw entry, encrypted under THIS
+        #      directory's write key) packed for ANOTHER directory and read back through that directory's write handle
+        if stu == "ok":
+            listing = w.dn._unpack_contents(packed_m)
+            src = {k: (show_node(n), n.get_write_uri(), n.get_readonly_uri(), md) for k, (n, md) in listing.items()}
+
+            def compare_with_source(what, got, sig):
+                if set(got) != set(src):
+                    ctx.violation("%s: names differ from the source listing" % what, case, sig + "-names")
+                    return
+                for k, (n2, md2) in got.items():
+                    if (n2.get_write_uri(), n2.get_readonly_uri()) != src[k][1:3] or show_node(n2) != src[k][0]:
+                        ctx.violation("%s: a child's caps differ from the source listing" % what, case, sig + "-caps",
+                                      {"name": k, "source": src[k][0], "got": show_node(n2)})
+                    if md2 != src[k][3]:
+                        ctx.violation("%s: a child's metadata differs from the source listing" % what, case, sig + "-metadata")
+            st4, packed_b = call(lambda: pack_children(listing, w.key2, False))
+            l_tok = ";".join("%s~%s~%s" % (hx(k.encode()), show_node(n), hx(dumps(md))) for k, (n, md) in listing.items()) or "-"
+            lcaps = set(capstrs)
+            for k, (n, md) in listing.items():
+                lcaps |= {n.get_write_uri(), n.get_readonly_uri()}
+            lines.append("pack m %s %s %s" % (class_table(lcaps), norm_table(list(listing)), l_tok))
+            try:
+                impls.append("ok:" + hx(to_model_cipher(w.dn2, packed_b)) if st4 == "ok" else "err:cap")
+            except Exception as e:  # noqa
+                impls.append("unreadable:" + type(e).__name__)
+            cases.append({"pack": "m", "what": "listing-for-other-directory", "case": case})
+            ctx.case(("pack-listing", st4, len(listing)) if listing else None)
+            if st4 != "ok":
+                ctx.violation("a directory listing cannot be packed for another directory", case, "cross-dir-pack-fails")
+            else:
+                st5, res_b = call(lambda: w.dn2._unpack_contents(packed_b))
+                if st5 != "ok":
+                    ctx.violation("a listing packed for another directory cannot be unpacked there", case, "cross-dir-unpack-fails")
+                else:
+                    compare_with_source("listing packed for another directory (pack_children)", res_b, "cross-dir")
+            # the same through the public API, now and then (a new directory costs an RSA key)
+            if listing and len(listing) <= 12 and w.n_cross < ctx.budget(12, 150) and rng.random() < 0.3:
+                w.n_cross += 1
+                for what, make in (("create_dirnode(initial_children=listing)",
+                                    lambda: w.c.create_dirnode(initial_children=w.dn._unpack_contents(packed_m))),
+                                   ("create_subdirectory(initial_children=listing)",
+                                    lambda: w.dn2.create_subdirectory("c19-sub", initial_children=w.dn._unpack_contents(packed_m)))):
+                    stc, newdir = call(lambda: w.rt.wait(make()))
+                    if stc != "ok":
+                        ctx.disagree("creating a directory from a listing raised", case, repr(newdir), None)
+                        continue
+                    stl, got = call(lambda: w.rt.wait(newdir.list()))
+                    if stl != "ok":
+                        ctx.violation("%s: the new directory cannot be listed" % what, case, "cross-dir-api-unreadable")
+                    else:
+                        compare_with_source(what, got, "cross-dir-api")
+                    ctx.count("cross-dir-api")
         # ---- immutable directory reading data that holds mutable children: they must be dropped
         st_n, packed_n = call(lambda: pack_children(dict(childrenx), None, False))
         if st_n == "ok":
